@@ -78,7 +78,7 @@ def body_one(n, H, Ls, method, kind, clauses, phase='regular'):
             pre = hj.build_regular(hjmod, n, H, Ls, perm)
             jo = None
         else:
-            pre = hj.build_jumpoff(hjmod, n, H, Ls, phase == 'jo1', perm)
+            pre = hj.build_jumpoff(hjmod, n, H, Ls, phase.startswith('jo1'), perm, prior=(phase[3:] or None))
             jo = {'started': pre.started, 'participants': [hj.BIBS[j] for j in range(n) if pre.is_part[j]], 'Hreg': H}
         s0 = hj.snapshot(pre.comp)
         arg, argc = arg_for(method, kind, pre, eng)
@@ -330,15 +330,27 @@ def jobs_one(clauses, nmax, Hmax, budget):
     return jobs
 
 
-def jobs_jumpoff(clauses, nmax, Hmax, budget):
+def jobs_jumpoff(clauses, nmax, Hmax, budget, second=True):
     jobs = []
     for (n, H, Ls) in shapes(nmax, Hmax):
         if n < 2 or H < 1 or min(Ls) < 1 or max(Ls) != H:
             continue          # everybody has gone out (at least one column each), the last of them at the last regular height
-        for phase in ('jo0', 'jo1'):
+        # jo0 / jo1: first jump-off height (bar not yet set / set); suffix x / o: second jump-off height after a first one that all failed / cleared
+        for phase in ('jo0', 'jo1') + (('jo0x', 'jo1x', 'jo0o', 'jo1o') if second else ()):
             calls = [('set_bar_height', 'any')] + [(m, b) for b in hj.BIBS[:n] for m in hj.TRIALS]
             for (m, a) in calls:
                 jobs.append(('one', n, H, Ls, m, a, clauses, budget, phase))
+    return jobs
+
+
+def jobs_jumpoff_three(clauses, budget):
+    """three athletes on two regular heights, second jump-off height in progress: the smallest shape in which a participant can fall behind an
+    athlete who was not tied for first (quick tier; the thorough tier has every three-athlete shape)"""
+    jobs = []
+    n, H, Ls = 3, 2, (2, 2, 2)
+    for phase in ('jo1o', 'jo1x'):
+        for (m, a) in [(m, b) for b in hj.BIBS[:n] for m in ('cleared', 'failed')]:
+            jobs.append(('one', n, H, Ls, m, a, clauses, budget, phase))
     return jobs
 
 
